@@ -15,9 +15,9 @@ def modSock (n : Net) (h s : Nat) (f : SockM → SockM) : Net :=
   n.modHost h (fun hm => { hm with socks := hm.socks.modify s f })
 
 /-- the chunk as it sits in a queue -/
-def qHop (r : Nat) (c : Chunk) : Chunk := { c with hops := c.hops ++ [.queue r] }
+def qHop (r : Nat) (c : Chunk) : Chunk := { c with hops := c.hops ++ [.queue r], route := c.route ++ [(.queue r, c.dst)] }
 /-- the chunk as it sits in an inbox -/
-def iHop (h s : Nat) (c : Chunk) : Chunk := { c with hops := c.hops ++ [.inbox h s] }
+def iHop (h s : Nat) (c : Chunk) : Chunk := { c with hops := c.hops ++ [.inbox h s], route := c.route ++ [(.inbox h s, c.dst)] }
 
 /-- append to the queue of router `r` -/
 def enq (n : Net) (r : Nat) (c : Chunk) : Net :=
@@ -52,8 +52,9 @@ structure Sim (c c' : Chunk) : Prop where
   odst : c'.odst = c.odst
   payload : c'.payload = c.payload
   hops : c'.hops = c.hops
+  route : c'.route = c.route
 
-theorem Sim.refl (c : Chunk) : Sim c c := ⟨rfl, rfl, rfl, rfl, rfl⟩
+theorem Sim.refl (c : Chunk) : Sim c c := ⟨rfl, rfl, rfl, rfl, rfl, rfl⟩
 
 /-! ### `sockAt` under the updates -/
 
@@ -152,7 +153,7 @@ theorem forward_cases (n : Net) (r : Nat) (rt : RouterM) (c : Chunk) : FwdOut n 
           simp only
           have hq : QEq n (n.modRouter k (fun x => { x with nat := some nat' })) := QEq.modRouter _ _ _ (fun _ => rfl)
           split
-          · refine ⟨_, _, hq, ?_, .inr (.inl ⟨_, rfl⟩)⟩; exact ⟨rfl, rfl, rfl, rfl, rfl⟩
+          · refine ⟨_, _, hq, ?_, .inr (.inl ⟨_, rfl⟩)⟩; exact ⟨rfl, rfl, rfl, rfl, rfl, rfl⟩
           · exact ⟨_, c, hq, .refl c, .inl ⟨_, rfl⟩⟩
   · split
     · rename_i p nat _ _
@@ -161,7 +162,7 @@ theorem forward_cases (n : Net) (r : Nat) (rt : RouterM) (c : Chunk) : FwdOut n 
       simp only
       have hq : QEq n (n.modRouter r (fun x => { x with nat := some nat' })) := QEq.modRouter _ _ _ (fun _ => rfl)
       split
-      · refine ⟨_, _, hq, ?_, .inr (.inl ⟨_, rfl⟩)⟩; exact ⟨rfl, rfl, rfl, rfl, rfl⟩
+      · refine ⟨_, _, hq, ?_, .inr (.inl ⟨_, rfl⟩)⟩; exact ⟨rfl, rfl, rfl, rfl, rfl, rfl⟩
       · exact ⟨_, c, hq, .refl c, .inl ⟨_, rfl⟩⟩
       · exact ⟨_, c, hq, .refl c, .inl ⟨_, rfl⟩⟩
     · exact ⟨n, c, .refl n, .refl c, .inl ⟨_, rfl⟩⟩
@@ -275,7 +276,7 @@ theorem read_takes_next (n : Net) (hh s : Nat) (sk : SockM) (hs : sockAt n hh s 
 theorem push_keeps (n : Net) (r : Nat) (rt : RouterM) (c : Chunk) (hr : n.routers[r]? = some rt)
     (hs : n.started = true) (hcap : rt.cap = 0 ∨ rt.queue.length < rt.cap) :
     (n.pushTo r c).drops = n.drops ∧
-    ∃ rt', (n.pushTo r c).routers[r]? = some rt' ∧ rt'.queue = rt.queue ++ [{ c with hops := c.hops ++ [.queue r] }] := by
+    ∃ rt', (n.pushTo r c).routers[r]? = some rt' ∧ rt'.queue = rt.queue ++ [{ c with hops := c.hops ++ [.queue r], route := c.route ++ [(.queue r, c.dst)] }] := by
   have hc : ¬ (rt.cap > 0 ∧ rt.queue.length ≥ rt.cap) := by omega
   unfold Net.pushTo
   simp only [hr, hs, hc, Bool.not_true, Bool.false_eq_true, if_false]
@@ -285,7 +286,7 @@ theorem push_keeps (n : Net) (r : Nat) (rt : RouterM) (c : Chunk) (hr : n.router
 theorem deliver_keeps (n : Net) (hh : Nat) (hm : HostM) (s : Nat) (sk : SockM) (c : Chunk) (h1 : n.hosts[hh]? = some hm)
     (h2 : hm.findSock c.dst = some s) (h3 : hm.socks[s]? = some sk) (h4 : sk.inbox.length < inboxCap) :
     (n.deliver hh c).drops = n.drops ∧
-    ∃ sk', sockAt (n.deliver hh c) hh s = some sk' ∧ sk'.delivered = sk.delivered ++ [{ c with hops := c.hops ++ [.inbox hh s] }] := by
+    ∃ sk', sockAt (n.deliver hh c) hh s = some sk' ∧ sk'.delivered = sk.delivered ++ [{ c with hops := c.hops ++ [.inbox hh s], route := c.route ++ [(.inbox hh s, c.dst)] }] := by
   have hc : ¬ (sk.inbox.length ≥ inboxCap) := by omega
   have e : n.deliver hh c = handOver n hh s c := by
     unfold Net.deliver
